@@ -137,15 +137,25 @@ Definition self_move (alts : list ty) (s : var) : res var :=
                    | _ => UB OutOfBounds
                    end).
 
-(* operator=(T&&): selection; same alternative -> assign through, else emplace.
-   None = the assignment does not compile (no / ambiguous alternative) *)
+(* x = V(...) for a temporary that dies afterwards *)
+Definition assign_temp (alts : list ty) (x tmp : var) : res var :=
+  rbind (assign_move alts x tmp) (fun p => Ok (fst p)).
+
+(* x = value.  operator=(T&&): selection; same alternative -> assign through, else emplace.
+   None = the assignment does not compile (no / ambiguous alternative).
+   The operator template is constrained by is_assignable_v<T_j&, T> and is_assignable_v<T_j, T> (sic: the second
+   asks about assignment to an rvalue T_j, which is ill-formed for every non-class T_j), so for a scalar selected
+   alternative it does not participate: the argument is then converted to a temporary variant by the converting
+   constructor variant(T&&) and that is move-assigned.  Same final state, different path. *)
 Definition conv_assign (alts : list ty) (s : var) (src : ty) (v : Z) : res (option var) :=
   match select alts src with
   | None => Ok None
   | Some j =>
     let v' := conv src (alt_ty alts j) v in
-    if Nat.eqb (idx s) j then rbind (uget s j) (fun _ => Ok (Some {| idx := idx s; val := v' |}))
-    else rbind (emplace alts s j v') (fun s' => Ok (Some s'))
+    if is_class (alt_ty alts j) then
+      (if Nat.eqb (idx s) j then rbind (uget s j) (fun _ => Ok (Some {| idx := idx s; val := v' |}))
+       else rbind (emplace alts s j v') (fun s' => Ok (Some s')))
+    else rbind (assign_temp alts s (replace j v')) (fun s' => Ok (Some s'))
   end.
 
 (* variant(T&&) *)
@@ -154,10 +164,6 @@ Definition conv_ctor (alts : list ty) (src : ty) (v : Z) : option var :=
   | None => None
   | Some j => Some (replace j (conv src (alt_ty alts j) v))
   end.
-
-(* x = V(...) for a temporary that dies afterwards *)
-Definition assign_temp (alts : list ty) (x tmp : var) : res var :=
-  rbind (assign_move alts x tmp) (fun p => Ok (fst p)).
 
 (* etl::swap(a, b): T temp(move(a)); a = move(b); b = move(temp); *)
 Definition swap_generic (alts : list ty) (a b : var) : res (var * var) :=
